@@ -3,6 +3,8 @@ package checks
 import (
 	"bytes"
 	"fmt"
+	"io"
+	"os"
 	"strings"
 	"testing/iotest"
 
@@ -245,6 +247,30 @@ var subC13Header = &fw.Sub{
 					}
 					if err == nil {
 						return fw.Failf("error for wrong magic / unsupported version", "%s %02x %02x (open stream): loaded without error", c.Kind, c.Hi, lo)
+					}
+				}
+			}
+			// a bad header in front of a LONG file (longer than any read buffer), through a reader that has Close and Name
+			// like *os.File and through a real file: rejected, and the call returns (a helper goroutine that is still
+			// copying the file must not be waited for forever) — for the header values next to the valid ones
+			if !accept && (lo <= 2 || lo == 0x6B || lo == 0x6D || lo == 0xFF) && (c.Hi <= 2 || c.Hi >= 0xFB) {
+				for _, extra := range []int{4093, 5000, 70000} {
+					long := append(append([]byte{}, d[:4]...), bytes.Repeat([]byte{0x6C}, extra)...)
+					_, err, _, _ := impl.Load(&fileLike{Reader: bytes.NewReader(long)})
+					fw.Tally("loads", 1)
+					if err == nil {
+						return fw.Failf("error for wrong magic / unsupported version", "%s %02x %02x in front of %d more bytes (file-like reader): loaded without error", c.Kind, c.Hi, lo, extra)
+					}
+					if tmp, terr := os.CreateTemp(fw.WorkDir(), "c13-*.bcb"); terr == nil {
+						tmp.Write(long)
+						tmp.Seek(0, io.SeekStart)
+						_, err, _, _ = impl.Load(tmp)
+						tmp.Close()
+						os.Remove(tmp.Name())
+						fw.Tally("loads", 1)
+						if err == nil {
+							return fw.Failf("error for wrong magic / unsupported version", "%s %02x %02x in front of %d more bytes (*os.File): loaded without error", c.Kind, c.Hi, lo, extra)
+						}
 					}
 				}
 			}
